@@ -7,11 +7,23 @@ def predict(cases, v=None, workers=None, chunk=4000, spec="Lang"):
     """cases: [{id, nodes, root}] -> {id: {out:[lines], st, steps, err}}"""
     os.makedirs(vlib.WORK, exist_ok=True)
     preds = {}
-    for k in range(0, len(cases), chunk):
+    # chunks of at most `chunk` programs and about 60 MB of node tables (TLC holds the whole chunk as one value)
+    lines = [json.dumps({"id": c["id"], "nodes": c["nodes"], "root": c["root"], "names": c.get("names", {"script": [115]}), "mods": c.get("mods") or {"$none": 0}})
+             for c in cases]
+    chunks, cur, size = [], [], 0
+    for ln in lines:
+        if cur and (len(cur) >= chunk or size + len(ln) > 60_000_000):
+            chunks.append(cur)
+            cur, size = [], 0
+        cur.append(ln)
+        size += len(ln)
+    if cur:
+        chunks.append(cur)
+    for k, part in enumerate(chunks):
         path = os.path.join(vlib.WORK, f"progs_{os.getpid()}_{k}.ndjson")
         with open(path, "w") as f:
-            for c in cases[k:k + chunk]:
-                f.write(json.dumps({"id": c["id"], "nodes": c["nodes"], "root": c["root"], "names": c.get("names", {"script": [115]}), "mods": c.get("mods") or {"$none": 0}}) + "\n")
+            for ln in part:
+                f.write(ln + "\n")
         r = vlib.tlc(spec, spec, env={"PROGS": path}, workers=workers or min(vlib.NCPU, 12), timeout=3300, heap="24g")
         os.remove(path)
         if r["distinct"] == 0 or r["timeout"] or any(e.startswith("Error:") for e in r["errors"]):
